@@ -1,5 +1,6 @@
 import ScrapliModel.Bytes
 import ScrapliModel.SSHConfig
+import ScrapliModel.SSHConfigParse
 import ScrapliModel.Spec.SSHLookup
 open Scrapli Scrapli.SSHConfig Scrapli.Gen.SSHConfig
 
@@ -13,6 +14,11 @@ open Scrapli Scrapli.SSHConfig Scrapli.Gen.SSHConfig
     HK <n1,n2,..> <lines> <hm4>  history on one SSHKnownHosts object (khHistory); hm4: salt/hash/name/(t|f|x);...
     K <name> <lines> <hm>     lines: "." | l;l;...  l = host/keytype/pubkey ;  hm: "." | salt/hash/(t|f|x);...
       -> ok none | ok <keytype> <pubkey> | err <kind>
+    PC <home> <text>          the TEXT PARSER parseCfg + insertAll -> ok <entries of the dict, in order> | err <kind>
+    PL <home> <name> <text>   lookupText (parse + build + lookup) -> same reply as L
+    PK <text>                 khBuild (khParse text) -> ok <key/keytype/pubkey;...>
+    PKL <name> <text> <hm>    khLookupText -> same reply as K
+  `home` = os.path.expanduser("~") (the model's `expand` parameter: `~` and `~/…` only)
   The `mc` parameter of the model is the generated `regexMeta` (the tree's current state).
 -/
 
@@ -88,8 +94,43 @@ def showKH : Except Err (Option (Str × Str)) → String
   | .ok (some (kt, pk)) => s!"ok {encStr kt} {encStr pk}"
   | .error k => s!"err {errName k}"
 
+/-- os.path.expanduser for `~` and `~/…` with the given home directory -/
+def expandHome (home : Str) : Str → Str
+  | '~' :: r => if r.isEmpty || r.head? == some '/' then home ++ r else '~' :: r
+  | s => s
+
+def encEntry (e : Entry) : String := s!"{encStr e.hosts}/{encVal e.hostname}/{",".intercalate (e.attrs.map encVal)}"
+
 def handleLine (line : String) : String :=
   match line.trimAscii.toString.splitOn " " with
+  | ["PC", home, text] =>
+    match decStr home, decStr text with
+    | some home, some text =>
+      match parseCfg (expandHome home) text with
+      | .ok parsed =>
+        let d := insertAll parsed
+        if d.isEmpty then "ok ." else "ok " ++ ";".intercalate (d.map fun ke => encEntry ke.2)
+      | .error k => s!"err {errName k}"
+    | _, _ => "bad-op"
+  | ["PL", home, name, text] =>
+    match decStr home, decStr name, decStr text with
+    | some home, some name, some text => showCfg (lookupText (expandHome home) regexMeta text name)
+    | _, _, _ => "bad-op"
+  | ["PK", text] =>
+    match decStr text with
+    | some text =>
+      let d := khBuild (khParse text)
+      if d.isEmpty then "ok ." else "ok " ++ ";".intercalate (d.map fun kv => s!"{encStr kv.1}/{encStr kv.2.1}/{encStr kv.2.2}")
+    | none => "bad-op"
+  | ["PKL", name, text, hm] =>
+    match decStr name, decStr text, decList decHM hm with
+    | some name, some text, some tbl =>
+      let hmf : Str → Str → Str → Option Bool := fun salt hash _ =>
+        match tbl.lookup (salt, hash) with
+        | some r => r
+        | none => some false
+      showKH (khLookupText hmf text name)
+    | _, _, _ => "bad-op"
   | ["L", name, entries] =>
     match decStr name, decList decEntry entries with
     | some name, some parsed =>
